@@ -32,6 +32,23 @@ type (
 	plainSt  struct{ A int }
 )
 
+func sameNameStruct() any {
+	type item struct{ A int }
+	return item{A: 1}
+}
+func sameNameSlice() any {
+	type item []int
+	return item{1, 2}
+}
+func sameNameSlice2() any {
+	type elem []string
+	return elem{"x"}
+}
+func sameNameStruct2() any {
+	type elem struct{ S string }
+	return elem{S: "x"}
+}
+
 func baseValues() []any {
 	var self selfSl = make(selfSl, 1)
 	self[0] = self
@@ -78,6 +95,8 @@ func baseValues() []any {
 		[]map[string]any{{"a": 1}}, [][]int{{1}}, [][]int{{1}, {2, 3}}, []myInt{5}, []bool{true}, []byte("hi"), []error{nil}, []*int{&one}, []func(){func() {}}, []withSl{{S: []int{1}}},
 		[]map[string]int{{"a": 1}}, []any{map[string]int{"a": 1}}, []any{math.NaN()}, []float32{float32(math.NaN())}, self, []selfSl{self},
 		time.Second, flyt.NewResult(1), flyt.Action("a"),
+		// distinct types that print the same name, in both orders (struct first / slice first)
+		sameNameStruct(), sameNameSlice(), sameNameSlice2(), sameNameStruct2(),
 	}
 	return vals
 }
@@ -428,33 +447,83 @@ func checkValueFamily(v any, f *family) []string {
 	} else if ok && !f.eq(gotMust, got) {
 		bad("Must%s = %s but As%s = %s", f.name, sh(gotMust), f.name, sh(got))
 	}
-	// store getters on the same value
-	st := flyt.NewSharedStore()
-	st.Set("k", v)
-	var g, gOr, gMissing any
-	if p, pv := try(func() { g = f.get(st, "k"); gOr = f.getOr(st, "k", f.def); gMissing = f.getOr(st, "absent", f.def) }); p {
-		bad("store Get%s panicked: %v", f.name, pv)
-		return pr
+	// store getters on the same value — reached through different histories of the key: the
+	// getter is a view of the CURRENT value, whatever was stored (and read) there before
+	histories := []struct {
+		name string
+		put  func(st *flyt.SharedStore)
+	}{
+		{"fresh Set", func(st *flyt.SharedStore) { st.Set("k", v) }},
+		{"Set(other); read; Merge", func(st *flyt.SharedStore) {
+			st.Set("k", primeValue(f.name))
+			f.get(st, "k")
+			f.getOr(st, "k", f.def)
+			st.Merge(map[string]any{"k": v})
+		}},
+		{"Set(other); read; Clear; Merge", func(st *flyt.SharedStore) {
+			st.Set("k", primeValue(f.name))
+			f.get(st, "k")
+			st.Clear()
+			st.Merge(map[string]any{"k": v, "other": 1})
+		}},
+		{"Set(other); read; Delete; Set", func(st *flyt.SharedStore) {
+			st.Set("k", primeValue(f.name))
+			f.get(st, "k")
+			st.Delete("k")
+			st.Set("k", v)
+		}},
 	}
-	if ok {
-		if !f.eq(g, got) {
-			bad("store Get%s = %s, result accessor gives %s", f.name, sh(g), sh(got))
+	var gMissing any
+	for _, hist := range histories {
+		st := flyt.NewSharedStore()
+		var g, gOr any
+		if p, pv := try(func() {
+			hist.put(st)
+			g = f.get(st, "k")
+			gOr = f.getOr(st, "k", f.def)
+			gMissing = f.getOr(st, "absent", f.def)
+		}); p {
+			bad("store Get%s panicked (%s): %v", f.name, hist.name, pv)
+			return pr
 		}
-		if !f.eq(gOr, got) {
-			bad("store Get%sOr = %s, result accessor gives %s", f.name, sh(gOr), sh(got))
-		}
-	} else {
-		if !f.eq(g, f.zero) {
-			bad("store Get%s = %s, want the zero value (result accessor fails)", f.name, sh(g))
-		}
-		if !f.eq(gOr, f.def) {
-			bad("store Get%sOr = %s, want the default (result accessor fails)", f.name, sh(gOr))
+		if ok {
+			if !f.eq(g, got) {
+				bad("store Get%s (%s) = %s, result accessor gives %s", f.name, hist.name, sh(g), sh(got))
+			}
+			if !f.eq(gOr, got) {
+				bad("store Get%sOr (%s) = %s, result accessor gives %s", f.name, hist.name, sh(gOr), sh(got))
+			}
+		} else {
+			if !f.eq(g, f.zero) {
+				bad("store Get%s (%s) = %s, want the zero value (result accessor fails)", f.name, hist.name, sh(g))
+			}
+			if !f.eq(gOr, f.def) {
+				bad("store Get%sOr (%s) = %s, want the default (result accessor fails)", f.name, hist.name, sh(gOr))
+			}
 		}
 	}
 	if !f.eq(gMissing, f.def) {
 		bad("store Get%sOr on a missing key = %s, want the default", f.name, sh(gMissing))
 	}
 	return pr
+}
+
+// primeValue: a value of the family's "successful" kind, stored (and read) under the key before
+// the value under test replaces it.
+func primeValue(family string) any {
+	switch family {
+	case "String":
+		return "primed"
+	case "Int":
+		return 4242
+	case "Float64":
+		return 42.5
+	case "Bool":
+		return true
+	case "Map":
+		return map[string]any{"primed": 1}
+	}
+	return []string{"primed", "slice"}
 }
 
 func checkToSlice(v any) []string {
@@ -507,6 +576,29 @@ func genC15(tier string) []Scenario {
 		vals = append(vals, derivedValues(derivedValues(base)[:400])...)
 	}
 	var out []Scenario
+	// process-wide state (caches keyed by something coarser than the type): distinct types that
+	// print the same name are checked one after the other IN ONE PROCESS, in both orders
+	out = append(out, Scenario{Name: "accessors same-named distinct types in one process", Direct: func(deadline time.Time) *core.Stats {
+		st := &core.Stats{ByCost: map[int]int64{}, Outcomes: map[string]int64{}}
+		for round := 0; round < 2; round++ {
+			for _, v := range []any{sameNameStruct(), sameNameSlice(), sameNameSlice2(), sameNameStruct2(), myStr("n"), "n", mySlice{1}, []int{1}} {
+				var pr []string
+				for fi := range families {
+					pr = append(pr, checkValueFamily(v, &families[fi])...)
+					st.Executions++
+				}
+				pr = append(pr, checkToSlice(v)...)
+				st.Outcomes[fmt.Sprintf("%T/%d", v, round)]++
+				if len(pr) > 0 && len(st.Violations) < 10 {
+					st.Violations = append(st.Violations, core.Violation{Msgs: pr, Log: []string{"value: " + describe(v)}})
+				}
+			}
+		}
+		st.TreeNodes, st.Transitions = 16, st.Executions*9
+		st.ByCost[0] = st.Executions
+		st.SampleLog = []string{"struct `item` then slice `item` (same printed name), slice `elem` then struct `elem`, twice"}
+		return st
+	}})
 	const chunks = 16
 	for c := 0; c < chunks; c++ {
 		c := c
